@@ -577,4 +577,32 @@ example : spread (some false) [some 1, some 2, some 3, some 4, some 5, some 6, s
 
 end players
 
+/-! ### flags the managers expose as `bool` (`OptionManager`: `bool(lock_teams)` …) -/
+
+/-- what a `bool` attribute hands to `push` (Python writes `True` as 1) and what `bool(pulled)` makes of a stored byte -/
+def flagToVal (b : Bool) : Val := .int (if b then 1 else 0)
+def flagOfVal : Val → Option Bool
+  | .int i => some (i != 0)
+  | _ => none
+
+/-- set → save → load of a flag -/
+theorem flag_of_to (b : Bool) : flagOfVal (flagToVal b) = some b := by cases b <;> rfl
+
+/-- load → save of a flag hands back the stored byte exactly when that byte is 0 or 1: any other value is canonicalised
+to 1 (the files C01 quantifies over hold 0 / 1 there) -/
+theorem flag_to_of (i : Int) : (flagOfVal (.int i)).map flagToVal = some (.int i) ↔ (i = 0 ∨ i = 1) := by
+  simp only [flagOfVal, Option.map_some, flagToVal, Option.some.injEq]
+  by_cases h : i = 0
+  · subst h; simp
+  · have : (i != 0) = true := by simpa using h
+    rw [this]
+    simp only [if_true]
+    constructor
+    · intro e; injection e with e; exact Or.inr e.symm
+    · rintro (e | e)
+      · exact absurd e h
+      · rw [e]
+
+example : (flagOfVal (.int 2)).map flagToVal = some (.int 1) := by rfl
+
 end Aoe.Props.Hooks
